@@ -77,7 +77,7 @@ def make_rtb(env, continual, first):
     if first:
         s.last = env.T.tensor(float('inf'))
     else:
-        s.last = env.scalar('last', positive=True)
+        s.last = env.scalar('last')            # losses of either sign (a quadratic cost with a linear term is negative at its optimum)
     return s
 
 
@@ -90,7 +90,10 @@ for cont in (True, False):
                 s = make_rtb(env, cont, first)
                 n0, c0, M, P, d, tol = s.steps, s.patience_count, s.max_steps, s.patience, s.decreasing, s.tol
                 last = s.last
-                loss = env.scalar('loss', positive=True)
+                loss = env.scalar('loss', positive=True) if first else env.scalar('loss')
+                # first step: positive losses only - for a negative first loss (inf - loss)/loss = -inf counts a "failed decrease" that has no
+                # predecessor; with any positive tol such a loss stops the controller by the tol rule anyway (DESIGN 3.1)
+                env.assume('the loss is not exactly zero (the documented relative decrease divides by it)', (loss > 0) | (loss < 0))
                 s.step(loss)
                 n1 = n0 + 1
                 if first:
